@@ -10,6 +10,9 @@ INVARIANT BagMatches
 INVARIANT ListMatches
 INVARIANT TargetMatches
 INVARIANT Conformed
+INVARIANT CompileTotal
+INVARIANT CompileBag
+INVARIANT CompileList
 INVARIANT StrictlyCoherent
 INVARIANT RawConformKeeps
 INVARIANT WF
